@@ -21,7 +21,7 @@ EXHAUSTIVE_SUBDOMAINS = [
 ]
 ASSUMPTIONS = [
     "reference = bit-serial division by 0x1FFF409 on Python ints (pmv/ref/bits.py)",
-    "weight-5 patterns on 112 bits (134M) are covered by an offline checker over the 112 recorded single-bit "
+    "weight-5 patterns on 112 bits (134M): executed for real in the thorough tier; the quick tier relies on an offline checker over the 112 recorded single-bit "
     "syndromes (sound together with the linearity monitor) plus random real executions",
     "pyModeS.common is the pure-Python module in this configuration; the C twin is covered by C15",
 ]
@@ -322,6 +322,10 @@ def cases(ctx):
         for a in range(56):
             for b in range(a + 1, 56):
                 plan.append((56, 5, (a, b)))
+        # every weight-5 pattern on 112 bits executed for real (134 M calls; the syndrome checker stays as a cross-check)
+        for a in range(112):
+            for b in range(a + 1, 112):
+                plan.append((112, 5, (a, b)))
     for n, w, first in plan:
         if ctx.mine(i):
             yield "detect", {"n": n, "kind": "weight", "w": w, "first": list(first), "valid": "%X" % _valid(rng, n)}
